@@ -6,5 +6,6 @@ CONSTANTS
   BuiltinClashCrashes = TRUE
   LateBuiltinShadowed = TRUE
   AddRawKey = FALSE
+  AddMerged = FALSE
 INVARIANT NoDuplicateSurvives
 INVARIANT Terminates
